@@ -249,16 +249,16 @@ def predictor_stage(rng, b, data, free, parm_entries):
     return png_encode_frame(types, bpp, rows), data
 
 
-def build_chain(rng, chain, form, plain_len=None, a85_opts=None):
+def build_chain(rng, chain, form, plain_len=None, a85_opts=None, force_ec='any', plain_kind=None, pred=True):
     """returns (dict entries, content, orc list, plain, tags).  form: 'dict' | 'array' | 'none'"""
     b = Built()
     n = len(chain)
     # decide per stage parameters first (innermost stage = last filter gets free geometry)
-    want_pred = [f != A8 and form != 'none' and rng.random() < 0.7 for f in chain]
+    want_pred = [pred and f != A8 and form != 'none' and rng.random() < 0.7 for f in chain]
     if form == 'dict':
         # one dictionary: only legal for a single filter
         assert n == 1
-    plain = rand_bytes(rng, plain_len if plain_len is not None else rng.choice([0, 1, 2, 3, 4, 5, 7, 8, 9, 16, 33, 64, 100, 257]))
+    plain = rand_bytes(rng, plain_len if plain_len is not None else rng.choice([0, 1, 2, 3, 4, 5, 7, 8, 9, 16, 33, 64, 100, 257]), plain_kind)
     data = plain
     parms = [None] * n
     for i in range(n - 1, -1, -1):
@@ -294,6 +294,8 @@ def build_chain(rng, chain, form, plain_len=None, a85_opts=None):
                 b.tags.add('flate-l%d' % level)
             else:
                 ec = rng.choice([None, 0, 1]) if form != 'none' else None
+                if force_ec != 'any':
+                    ec = force_ec
                 early = 1 if ec is None else ec
                 if ec is not None:
                     ent.append(('EarlyChange', I(ec)))
@@ -337,17 +339,17 @@ class Pending:
         self.tags = tags
 
 
-def stream_case(entries, content, orc, expect, newc):
-    return L('case', 'stream', ST(entries, content), orc_sx(orc),
-             L('plain', xb(expect)) if expect is not None else L('none'), xb(newc))
+def stream_case(entries, content, orc, expect, newc, plain_only=None):
+    ex = L('plain', xb(expect)) if expect is not None else (L('plainonly', xb(plain_only)) if plain_only is not None else L('none'))
+    return L('case', 'stream', ST(entries, content), orc_sx(orc), ex, xb(newc))
 
 
-def gen_valid_stream(rng, chain=None, form=None, big=False):
+def gen_valid_stream(rng, chain=None, form=None, big=False, force_ec='any', plain_kind=None, pred=True):
     chain = chain or rng.choice(ALL_CHAINS)
     if form is None:
         form = rng.choice(['dict', 'array', 'array', 'none']) if len(chain) == 1 else rng.choice(['array', 'array', 'none'])
     plain_len = rng.choice([1000, 3000, 6000]) if big else None
-    entries, content, orc, plain, tags = build_chain(rng, chain, form, plain_len)
+    entries, content, orc, plain, tags = build_chain(rng, chain, form, plain_len, force_ec=force_ec, plain_kind=plain_kind, pred=pred)
     newc = rand_bytes(rng, rng.choice([0, 1, 5, 40]))
     line = stream_case(entries, content, orc, plain, newc)
     return line, {'kind': 'chain-' + '+'.join(f[:2] for f in chain), 'nontrivial': True, 'cov': sorted(tags)}
@@ -486,7 +488,7 @@ def gen_malformed(rng):
     if dmg == 'filter-empty':
         content = rand_bytes(rng, rng.choice([0, 5, 60]))
         entries = [('Filter', A([]))] + ([('DecodeParms', A([]))] if rng.random() < 0.5 else [])
-        return stream_case(entries, content, [], None, newc), tags
+        return stream_case(entries, content, [], None, newc, plain_only=content), tags
     if dmg in ('parms-types', 'parms-geometry', 'predictor-other', 'colors-huge'):
         # last (or only) stage Flate/LZW with odd parameters: decoding stays defined by the code's defaults
         f = rng.choice([FL, LZ])
@@ -711,6 +713,13 @@ def gen_cases(rng, tier):
                 items.append(gen_valid_stream(rng, chain, form))
     for _ in range(6 * k):
         items.append(gen_valid_stream(rng, rng.choice(ALL_CHAINS[:12]), big=True))
+    # LZW long enough for the code width to change (the only place where EarlyChange matters): parameter absent
+    # (dictionary absent, dictionary without the key), 0 and 1, dictionary and array form
+    for rep in range(k):
+        for ec, form in ((None, 'none'), (None, 'dict'), (None, 'array'), (0, 'dict'), (0, 'array'), (1, 'dict'), (1, 'array')):
+            items.append(gen_valid_stream(rng, [LZ], form, big=True, force_ec=ec, plain_kind='random', pred=False))
+        items.append(gen_valid_stream(rng, [A8, LZ], 'array', big=True, force_ec=None, plain_kind='random', pred=False))
+        items.append(gen_valid_stream(rng, [LZ, FL], 'none', big=True, force_ec=None, plain_kind='random', pred=False))
     # every partial final ASCII85 group x z / no z / white space / missing EOD
     for n in range(0, 13):
         for opts in ({'use_z': True, 'eod': True}, {'use_z': False, 'eod': True}, {'use_z': True, 'eod': False, 'ws': 0.3},
